@@ -89,7 +89,7 @@ def _case(draw, tier):
     mesh = draw(meshgen.any_mesh(max_pts=30 if big else 14, partial=True, tiny=True))
     mesh.pop("centers", None)
     steps = draw(st.lists(_step(), min_size=1, max_size=5))
-    return {"mesh": mesh, "steps": steps}
+    return {"mesh": mesh, "steps": steps, "radius": draw(st.sampled_from([None, None, None, 2.5, 6371229.0]))}
 
 
 def strategy(tier, excl):
@@ -97,7 +97,7 @@ def strategy(tier, excl):
 
 
 def classify(case):
-    labs = [f"steps:{len(case['steps'])}"]
+    labs = [f"steps:{len(case['steps'])}", "cartesian-radius:" + str(case.get("radius"))]
     cfgs = {(s["tree"], s["system"], s["metric"], s["kind"]) for s in case["steps"]}
     trees = {}
     switch = False
@@ -144,7 +144,7 @@ def _reported_latlon(g, kind):
 def run_case(case, ctx):
     INT_DTYPE, FILL = build.consts()
     mesh = case["mesh"]
-    g = build.grid_from_mesh(mesh)
+    g = build.grid_from_mesh(mesh, **(build.cartesian_kw(mesh, case["radius"]) if case.get("radius") else {}))
     fails = []
     seen = {"ball": None, "kd": None}
     for si, st_ in enumerate(case["steps"]):
@@ -185,8 +185,23 @@ def run_case(case, ctx):
                 qll.append([float(p[0]), float(p[1])])
         qxyz = np.array([S.ll2xyz(lon, lat) for lon, lat in qll])
         in_rad = st_["in_radians"]
+        scale = 1.0
         if system == "cartesian":
-            coords = qxyz.copy()
+            if case.get("radius"):
+                # the tree holds the Cartesian coordinates the grid reports for these elements (nodes on the supplied
+                # sphere, derived centres possibly on the unit sphere): the query is posed in that frame, on the
+                # elements' own sphere; that reported and true directions agree is C04's subject
+                pre = {"nodes": "node", "edge centers": "edge", "face centers": "face"}[kind]
+                el_c = np.stack([np.asarray(getattr(g, pre + "_" + ax).values, float) for ax in "xyz"], axis=1)
+                nrm = np.linalg.norm(el_c, axis=1)
+                scale = float(np.median(nrm))
+                if not np.allclose(nrm, scale, rtol=1e-9) or not np.allclose(el_c / scale, el, atol=1e-7):
+                    ctx.label("no-verdict:reported-cartesian-elements-differ")
+                    continue
+                el_cart = el_c
+            else:
+                el_cart = el
+            coords = qxyz * scale
         elif tree_t == "ball":
             coords = np.array(qll, float)  # (lon, lat)
             if in_rad:
@@ -202,8 +217,9 @@ def run_case(case, ctx):
         # ---- brute force
         TOL = None
         if system == "cartesian":
-            D = np.linalg.norm(qxyz[:, None, :] - el[None, :, :], axis=2)
+            D = np.linalg.norm(coords[:, None, :] - el_cart[None, :, :], axis=2)
             unit = 1.0
+            TOL = np.full(D.shape, TIE * scale)
         elif tree_t == "ball":
             D = S.angle_np(qxyz[:, None, :], el[None, :, :])
             unit = 1.0 if in_rad else 180.0 / math.pi
@@ -274,7 +290,7 @@ def run_case(case, ctx):
         else:
             r_deg = st_["radius_deg"]
             if system == "cartesian":
-                r = 2.0 * math.sin(math.radians(min(r_deg, 180.0)) / 2.0)  # chord of that angle
+                r = 2.0 * math.sin(math.radians(min(r_deg, 180.0)) / 2.0) * scale  # chord of that angle on the elements' sphere
                 r_cmp = r
             else:
                 r = r_deg  # documented: degrees
